@@ -138,8 +138,12 @@ func picast(ctx *Context, x interface{}) interface{} {
 		//
 		// So we conflate "null" and nil in order to support
 		// queries and patterns with null values.
+		//
+		// With the "S_" prefix because 'picast' gets applied
+		// more than once to the elements of an array in a
+		// pattern (and only once to those of an event).
 		Log(DEBUG, ctx, "picast", "null", "conflagration")
-		return "null"
+		return "S_null"
 	default:
 		return x
 	}
@@ -213,6 +217,9 @@ func (a ThingSlice) Less(i, j int) bool {
 	case int:
 		// Unlikely to get here because all Javascript numbers are floats!
 		return a[i].(int) < a[j].(int)
+	case bool:
+		// Sortable according to 'typeCode', so we need an order.
+		return !a[i].(bool) && a[j].(bool)
 	default:
 		Log(ERROR, nil, "ThingSlice.Less", "error", "unsupported type", "things", a)
 		return false
